@@ -71,22 +71,28 @@ Proof. split; rewrite set_dedlist_tab; auto. Qed.
 Record lists_frame' (v v' : vam) : Prop := mkListsFrame' {
   lf'_some : forall lr l, get_blist v lr = Some l -> exists l', get_blist v' lr = Some l' /\ blist_cfg_same l l';
   lf'_none : forall lr, get_blist v lr = None -> get_blist v' lr = None;
-  lf'_global : v_global v' = v_global v
+  lf'_global : v_global v' = v_global v;
+  lf'_uids : map p_uid (v_pools v') = map p_uid (v_pools v);
+  lf'_pids : map p_id (v_pools v') = map p_id (v_pools v);
+  lf'_next : v_next_uid v' = v_next_uid v /\ v_next_pool_id v' = v_next_pool_id v
 }.
 
 Lemma lists_frame_weak v v' : lists_frame v v' -> lists_frame' v v'.
-Proof. intros [A B C D]. constructor; auto. Qed.
+Proof. intros [A B C D E F G]. constructor; auto. Qed.
 
 Lemma lists_frame'_refl v : lists_frame' v v.
 Proof. apply lists_frame_weak. apply lists_frame_refl. Qed.
 
 Lemma lists_frame'_trans v1 v2 v3 : lists_frame' v1 v2 -> lists_frame' v2 v3 -> lists_frame' v1 v3.
 Proof.
-  intros [A1 A2 A3] [B1 B2 B3]. constructor.
+  intros [A1 A2 A3 A4 A5 A6] [B1 B2 B3 B4 B5 B6]. constructor.
   - intros lr l H. destruct (A1 _ _ H) as (l2 & H2 & C2). destruct (B1 _ _ H2) as (l3 & H3 & C3).
     exists l3. split; [auto|eapply blist_cfg_same_trans; eauto].
   - auto.
   - congruence.
+  - congruence.
+  - congruence.
+  - destruct A6, B6. split; congruence.
 Qed.
 
 Lemma lists_frame'_set_dedlist v lr d : lists_frame' v (set_dedlist v lr d).
@@ -95,6 +101,9 @@ Proof.
   - intros lr1 l H. exists l. rewrite get_blist_set_dedlist. split; [auto|apply blist_cfg_same_refl].
   - intros lr1 H. rewrite get_blist_set_dedlist. auto.
   - apply set_dedlist_global.
+  - apply set_dedlist_uids.
+  - apply set_dedlist_pids.
+  - split; [apply set_dedlist_next_uid|apply set_dedlist_next_pid].
 Qed.
 
 Section WithCfg.
@@ -274,5 +283,591 @@ Proof.
     split; [destruct T2 as (E & _); destruct T1 as (E1 & _); rewrite E, E1; eapply slot_is_range; eauto|].
     rewrite (get_alloc_frame _ _ _ _ T2) by auto. unfold v1, get_alloc. cbn.
     rewrite nth_z_set_same by (eapply slot_is_range; eauto). reflexivity.
+Qed.
+
+(* result of an allocation over the caller's objects [slots] (no pending registrations) *)
+Definition alloc_post (v v' : vam) (X slots : list Z) (r : out unit) : Prop :=
+  match r with
+  | OK _ => VamInvU c v' [] X /\ tab_frame v v' slots /\ lists_frame' v v' /\
+            forall s, In s slots -> exists a, slot_is v' s a
+  | ER _ => VamInvU c v' [] X /\ tab_frame v v' slots /\ lists_frame' v v' /\ dead_slots v' slots
+  | _ => True
+  end.
+
+Lemma allocate_dedicated_inv v X lr l ty size sub doMap allowed slots ded :
+  VamInvU c v [] X -> get_blist v lr = Some l -> bl_type l = ty -> NoDup slots -> dead_slots v slots ->
+  let '(v', r) := allocate_dedicated c v lr ty size sub doMap allowed slots ded in alloc_post v v' X slots r.
+Proof.
+  intros HI Hg Hty Hnd Hdead. unfold allocate_dedicated. destruct slots as [|s0 tl0] eqn:Eslots; [exact I|]. rewrite <- Eslots in *.
+  assert (Hnd0 : NoDup (slots ++ [])) by (rewrite app_nil_r; auto).
+  assert (Hds0 : ded_slots v lr []) by (intros ? []).
+  pose proof (dedicated_loop_inv slots v X lr l ty size sub doMap allowed [] ded HI Hg Hty Hnd0 Hdead Hds0) as DL.
+  destruct (dedicated_loop c v lr ty size sub doMap allowed slots [] ded) as ((v1 & r) & done).
+  destruct r as [[]|code| |]; auto.
+  - destruct DL as (I1 & T1 & L1 & D1 & N1 & _ & Q1 & O1). cbn [alloc_post].
+    destruct (lf_some _ _ L1 _ _ Hg) as (l1 & Hg1 & _).
+    set (v2 := set_dedlist v1 lr (get_dedlist v1 lr ++ slots)).
+    assert (Hlen : length (v_ded v1) = length (v_lists v1)).
+    { rewrite (vi_ded_len _ _ _ _ I1), (vi_lists_len _ _ _ _ I1). reflexivity. }
+    assert (I2 : VamInvU c v2 [] X).
+    { apply (VamInvU_register c v1 v2 done slots X lr I1 Hnd).
+      - intros x. split; [auto|]. intros Hx. specialize (Q1 x Hx). rewrite app_nil_r in Q1. auto.
+      - intros x Hx. destruct (D1 x Hx) as (a & Sa & _ & La). rewrite (get_alloc_slot _ _ _ Sa). auto.
+      - intros. apply get_blist_set_dedlist.
+      - apply set_dedlist_tab.
+      - apply set_dedlist_m.
+      - unfold v2. rewrite set_dedlist_lists. reflexivity.
+      - apply set_dedlist_ded_len.
+      - apply set_dedlist_uids.
+      - apply set_dedlist_pids.
+      - apply set_dedlist_next_uid.
+      - apply set_dedlist_next_pid.
+      - eapply get_dedlist_set_dedlist_same; eauto.
+      - intros. apply get_dedlist_set_dedlist_other. auto. }
+    split; [auto|]. split; [eapply tab_frame_trans_same; [exact T1|apply tab_frame_set_dedlist]|].
+    split; [eapply lists_frame'_trans; [apply lists_frame_weak; exact L1|apply lists_frame'_set_dedlist]|].
+    intros x Hx. destruct (D1 x (O1 x Hx)) as (a & Sa & _). exists a. unfold slot_is, v2. rewrite set_dedlist_tab. exact Sa.
+  - destruct DL as (I1 & T1 & L1 & D1 & N1 & _ & Q1 & O1).
+    pose proof (dedicated_rollback_inv done v1 X lr ty I1 N1 D1) as RB.
+    destruct (dedicated_rollback c v1 ty done) as (v2 & rr). destruct rr as [[]|rcode| |]; auto; [|contradiction].
+    destruct RB as (I2 & T2 & L2 & D2). cbn [alloc_post].
+    assert (Hsub : forall x, In x done -> In x slots) by (intros x Hx; specialize (Q1 x Hx); rewrite app_nil_r in Q1; auto).
+    split; [auto|]. split; [eapply tab_frame_trans; [exact T1|exact T2|auto|exact Hsub]|].
+    split; [apply lists_frame_weak; eapply lists_frame_trans; eauto|].
+    intros x Hx. destruct (in_dec Z.eq_dec x done) as [Hin|Hnin]; [apply D2; auto|].
+    destruct (O1 x Hx) as [H|(Hr & Hd)]; [contradiction|].
+    split; [destruct T2 as (E & _); lia|]. rewrite (get_alloc_frame _ _ _ _ T2); auto.
+Qed.
+
+Lemma alloc_post_trans_fail v0 v1 v2 X slots code :
+  VamInvU c v1 [] X -> tab_frame v0 v1 slots -> lists_frame' v0 v1 ->
+  alloc_post v1 v2 X slots (ER code) -> alloc_post v0 v2 X slots (ER code).
+Proof.
+  intros I T L (A & B & C & D). cbn. split; [auto|]. split; [eapply tab_frame_trans_same; eauto|].
+  split; [eapply lists_frame'_trans; eauto|auto].
+Qed.
+
+Lemma alloc_post_pre v0 v1 v2 X slots r :
+  tab_frame v0 v1 slots -> lists_frame' v0 v1 -> alloc_post v1 v2 X slots r -> alloc_post v0 v2 X slots r.
+Proof.
+  intros T L P. destruct r as [[]|code| |]; cbn in *; auto; destruct P as (A & B & C & D);
+    (split; [auto|]; split; [eapply tab_frame_trans_same; eauto|]; split; [eapply lists_frame'_trans; eauto|auto]).
+Qed.
+
+Lemma calc_type_params_spec v ty size count flags :
+  let '(v1, fr) := calc_type_params c v ty size count flags in
+  exists m1, v1 = set_m v m1 /\ mach_same (v_m v) m1 /\
+    match fr with
+    | OK f => f = (if fl flags F_MAPPED && negb (host_visible c ty) then fl_clear flags F_MAPPED else flags)
+    | ER _ => True
+    | _ => False
+    end.
+Proof.
+  unfold calc_type_params. destruct (_ && fl _ F_BUDGET).
+  - pose proof (heap_budget_same c (v_m v) (type_heap c ty)) as H.
+    destruct (heap_budget c (v_m v) (type_heap c ty)) as ((m1 & usage) & budget). cbn [fst] in H.
+    destruct (budget <? _); exists m1; auto.
+  - exists (v_m v). split; [destruct v; reflexivity|]. split; [apply mach_same_refl|reflexivity].
+Qed.
+
+(* allocateMemoryOfType *)
+Lemma alloc_of_type_inv v X lr l ty size align dedPref flags sub slots ded :
+  VamInvU c v [] X -> get_blist v lr = Some l -> bl_type l = ty -> align = 0 \/ Bits.pow2 align ->
+  NoDup slots -> dead_slots v slots ->
+  let '(v', r) := alloc_of_type c v lr ty size align dedPref flags sub slots ded in alloc_post v v' X slots r.
+Proof.
+  intros HI Hg Hty Hal Hnd Hdead. unfold alloc_of_type. destruct slots as [|s0 tl0] eqn:Eslots; [exact I|]. rewrite <- Eslots in *.
+  rewrite Hg.
+  (* calculateMemoryTypeParameters *)
+  set (f1 := if fl flags F_MAPPED && negb (host_visible c ty) then fl_clear flags F_MAPPED else flags).
+  pose proof (calc_type_params_spec v ty size (zlen slots) flags) as Hctp. fold f1 in Hctp.
+  destruct (calc_type_params c v ty size (zlen slots) flags) as (v1 & fr).
+  destruct Hctp as (m1 & -> & Hm1 & Hfr).
+  assert (I1 : VamInvU c (set_m v m1) [] X) by (apply VamInvU_mach_same; auto).
+  assert (T1 : tab_frame v (set_m v m1) slots) by apply tab_frame_set_m.
+  assert (L1 : lists_frame' v (set_m v m1)) by (apply lists_frame_weak; apply lists_frame_set_m).
+  assert (Hg1 : get_blist (set_m v m1) lr = Some l) by (rewrite get_blist_set_m; auto).
+  assert (Hdead1 : dead_slots (set_m v m1) slots) by exact Hdead.
+  destruct fr as [flags'|code| |]; try contradiction.
+  2:{ cbn. split; [auto|]. split; [auto|]. split; auto. }
+  subst flags'.
+  assert (Hded : forall w, VamInvU c w [] X -> tab_frame v w slots -> lists_frame' v w -> get_blist w lr = Some l -> dead_slots w slots ->
+            let '(v', r) := allocate_dedicated c w lr ty size sub (fl f1 F_MAPPED) (mapping_allowed f1) slots ded in alloc_post v v' X slots r).
+  { intros w Iw Tw Lw Hgw Hdw. pose proof (allocate_dedicated_inv w X lr l ty size sub (fl f1 F_MAPPED) (mapping_allowed f1) slots ded Iw Hgw Hty Hnd Hdw) as P.
+    destruct (allocate_dedicated c w lr ty size sub (fl f1 F_MAPPED) (mapping_allowed f1) slots ded) as (v' & r).
+    eapply alloc_post_pre; eauto. }
+  destruct (fl f1 F_DEDICATED); [apply Hded; auto|].
+  set (canDed := negb (fl f1 F_NEVER) && (negb match lr with LPool _ => true | LDef _ => false end || negb (bl_explicit l))).
+  match goal with |- context [if canDed then ?x else dedPref] => set (dp := if canDed then x else dedPref) end.
+  (* the preferred dedicated attempt *)
+  assert (Hearly : let '(v2, early) :=
+            (if canDed && dp then
+               let '(v', r) := allocate_dedicated c (set_m v m1) lr ty size sub (fl f1 F_MAPPED) (mapping_allowed f1) slots ded in
+               match r with OK _ => (v', Some (OK tt)) | ER _ => (v', None) | other => (v', Some other) end
+             else (set_m v m1, None)) in
+          match early with
+          | Some r => alloc_post v v2 X slots r
+          | None => VamInvU c v2 [] X /\ tab_frame v v2 slots /\ lists_frame' v v2 /\ dead_slots v2 slots /\
+                    exists l2, get_blist v2 lr = Some l2 /\ bl_type l2 = ty
+          end).
+  { destruct (canDed && dp).
+    - specialize (Hded (set_m v m1) I1 T1 L1 Hg1 Hdead1).
+      destruct (allocate_dedicated c (set_m v m1) lr ty size sub (fl f1 F_MAPPED) (mapping_allowed f1) slots ded) as (v' & r).
+      destruct r as [[]|code| |]; auto. destruct Hded as (A & B & C & D). split; [auto|]. split; [auto|]. split; [auto|]. split; [auto|].
+      destruct (lf'_some _ _ C _ _ Hg) as (l2 & G2 & C2). exists l2. split; [auto|]. destruct C2 as (C2 & _). congruence.
+    - split; [auto|]. split; [auto|]. split; [auto|]. split; [auto|]. exists l. auto. }
+  destruct (if canDed && dp then _ else _) as (v2 & early).
+  destruct early as [r|]; [exact Hearly|].
+  destruct Hearly as (I2 & T2 & L2 & D2 & l2 & G2 & Ty2).
+  pose proof (bl_allocate_inv c Hc v2 [] X lr slots size align f1 sub I2 Hal Hnd D2) as BA.
+  destruct (bl_allocate c v2 lr slots size align f1 sub) as (v3 & br).
+  destruct br as [[]|bcode| |]; auto.
+  - destruct BA as ((A & B & C) & (_ & D)). cbn. split; [auto|]. split; [eapply tab_frame_trans_same; eauto|].
+    split; [eapply lists_frame'_trans; [exact L2|apply lists_frame_weak; exact C]|].
+    intros x Hx. destruct (D x Hx) as (_ & a & Sa & _). eauto.
+  - destruct BA as ((A & B & C) & D).
+    assert (T3 : tab_frame v v3 slots) by (eapply tab_frame_trans_same; eauto).
+    assert (L3 : lists_frame' v v3) by (eapply lists_frame'_trans; [exact L2|apply lists_frame_weak; exact C]).
+    destruct (canDed && negb dp).
+    + pose proof (heap_budget_same c (v_m v3) (type_heap c ty)) as H.
+      destruct (heap_budget c (v_m v3) (type_heap c ty)) as ((m4 & usage) & budget). cbn [fst] in H.
+      assert (I4 : VamInvU c (set_m v3 m4) [] X) by (apply VamInvU_mach_same; auto).
+      destruct (budget <? _).
+      * cbn. split; [auto|]. split; [eapply tab_frame_trans_same; [exact T3|apply tab_frame_set_m]|].
+        split; [eapply lists_frame'_trans; [exact L3|apply lists_frame_weak; apply lists_frame_set_m]|exact D].
+      * destruct (lf_some _ _ C _ _ G2) as (l3 & G3 & C3).
+        pose proof (allocate_dedicated_inv (set_m v3 m4) X lr l3 ty size sub (fl f1 F_MAPPED) (mapping_allowed f1) slots ded I4
+                      ltac:(rewrite get_blist_set_m; exact G3) ltac:(destruct C3 as (C3 & _); congruence) Hnd D) as P.
+        destruct (allocate_dedicated c (set_m v3 m4) lr ty size sub (fl f1 F_MAPPED) (mapping_allowed f1) slots ded) as (v5 & r5).
+        eapply alloc_post_pre; [| |exact P].
+        -- eapply tab_frame_trans_same; [exact T3|apply tab_frame_set_m].
+        -- eapply lists_frame'_trans; [exact L3|apply lists_frame_weak; apply lists_frame_set_m].
+    + cbn. split; [auto|]. split; [auto|]. split; auto.
+Qed.
+
+Lemma pow2_or_zero_spec a : is_pow2_or_zero a = true -> a = 0 \/ Bits.pow2 a.
+Proof.
+  unfold is_pow2_or_zero. intros H. apply Z.eqb_eq in H.
+  destruct (Z.lt_trichotomy a 0) as [Hn|[->|Hp]]; [|left; reflexivity|].
+  - exfalso. assert (Z.land a (a - 1) < 0) by (apply Z.land_neg; lia). lia.
+  - right. exists (Z.log2 a). split; [apply Z.log2_nonneg|].
+    destruct (Z.eq_dec a (2 ^ Z.log2 a)) as [E|Hne]; [exact E|]. exfalso.
+    pose proof (Z.log2_spec a Hp) as (Hlo & Hhi).
+    assert (Hb1 : Z.testbit a (Z.log2 a) = true) by (apply Z.bit_log2; lia).
+    assert (Hl : Z.log2 (a - 1) = Z.log2 a).
+    { apply Z.log2_unique; [apply Z.log2_nonneg|]. replace (Z.succ (Z.log2 a)) with (Z.log2 a + 1) by lia.
+      rewrite Z.pow_add_r by (try apply Z.log2_nonneg; lia). rewrite Z.pow_succ_r in Hhi by apply Z.log2_nonneg. lia. }
+    assert (Hb2 : Z.testbit (a - 1) (Z.log2 a) = true).
+    { rewrite <- Hl. apply Z.bit_log2. pose proof (Z.pow_pos_nonneg 2 (Z.log2 a) ltac:(lia) (Z.log2_nonneg a)). lia. }
+    assert (Z.testbit (Z.land a (a - 1)) (Z.log2 a) = true) by (rewrite Z.land_spec, Hb1, Hb2; reflexivity).
+    rewrite H in H0. rewrite Z.bits_0 in H0. discriminate.
+Qed.
+
+Lemma type_loop_inv fuel : forall v X bits ty size align dedPref usage flags req pref ctb sub slots ded bufimg,
+  VamInvU c v [] X -> align = 0 \/ Bits.pow2 align -> NoDup slots -> dead_slots v slots ->
+  let '(v', r) := type_loop c fuel v bits ty size align dedPref usage flags req pref ctb sub slots ded bufimg in
+  alloc_post v v' X slots r.
+Proof.
+  induction fuel as [|f IH]; intros v X bits ty size align dedPref usage flags req pref ctb sub slots ded bufimg HI Hal Hnd Hdead;
+    cbn [type_loop]; [exact I|].
+  assert (Hfail : forall code, alloc_post v v X slots (ER code)).
+  { intros code. cbn. split; [auto|]. split; [apply tab_frame_refl|]. split; [apply lists_frame'_refl|auto]. }
+  destruct (get_blist v (LDef ty)) as [l|] eqn:Hg; [|apply Hfail].
+  pose proof (alloc_of_type_inv v X (LDef ty) l ty size align dedPref flags sub slots ded HI Hg (vi_def_type _ _ _ _ HI _ _ Hg) Hal Hnd Hdead) as P.
+  destruct (alloc_of_type c v (LDef ty) ty size align dedPref flags sub slots ded) as (v1 & r).
+  destruct r as [[]|code| |]; auto.
+  destruct (code =? VK_UNKNOWN); [exact P|].
+  destruct P as (I1 & T1 & L1 & D1).
+  destruct (find_type_index c (v_global v1) _ usage flags req pref ctb bufimg) as [ty'|].
+  - specialize (IH v1 X (Z.land bits (Z.lnot (Z.shiftl 1 ty))) ty' size align dedPref usage flags req pref ctb sub slots ded bufimg I1 Hal Hnd D1).
+    destruct (type_loop c f v1 _ ty' size align dedPref usage flags req pref ctb sub slots ded bufimg) as (v2 & r2).
+    eapply alloc_post_pre; eauto.
+  - cbn. split; [auto|]. split; [auto|]. split; auto.
+Qed.
+
+Lemma multi_allocate_inv v X size align typeBits reqDed prefDed ded bufimg usage flags0 req pref ctb pool sub slots :
+  VamInvU c v [] X -> NoDup slots -> dead_slots v slots ->
+  let '(v', r) := multi_allocate c v size align typeBits reqDed prefDed ded bufimg usage flags0 req pref ctb pool sub slots in
+  alloc_post v v' X slots r.
+Proof.
+  intros HI Hnd Hdead. unfold multi_allocate.
+  assert (Hfail : forall code, alloc_post v v X slots (ER code)).
+  { intros code. cbn. split; [auto|]. split; [apply tab_frame_refl|]. split; [apply lists_frame'_refl|auto]. }
+  destruct (is_pow2_or_zero align) eqn:Ea; cbn [negb]; [|apply Hfail].
+  pose proof (pow2_or_zero_spec _ Ea) as Hal.
+  destruct (size <? 1); [apply Hfail|].
+  destruct (calc_params usage flags0 reqDed _) as [flags|code| |]; [|apply Hfail|exact I|exact I].
+  destruct pool as [uid|].
+  - destruct (get_blist v (LPool uid)) as [l|] eqn:Hg; [|exact I].
+    apply (alloc_of_type_inv v X (LPool uid) l); auto.
+  - destruct (find_type_index c (v_global v) typeBits usage flags req pref ctb bufimg) as [ty|]; [|apply Hfail].
+    apply type_loop_inv; auto.
+Qed.
+
+Lemma slot_range_nodup n : forall a, NoDup (slot_range a n) /\ forall s, In s (slot_range a n) -> a <= s < a + Z.of_nat n.
+Proof.
+  induction n as [|k IH]; intros a; cbn [slot_range]; [split; [constructor|intros ? []]|].
+  destruct (IH (a + 1)) as (Hnd & Hr). split.
+  - constructor; [intros H; specialize (Hr _ H); lia|auto].
+  - intros s [<-|H]; [lia|]. specialize (Hr _ H). lia.
+Qed.
+
+(* AllocateMemory / AllocateMemorySlice into objects that are not allocated *)
+Lemma allocate_memory_inv v X slot size align typeBits usage flags req pref ctb pool :
+  VamInvU c v [] X -> 0 <= slot < zlen (v_tab v) ->
+  let '(v', r) := allocate_memory c v slot size align typeBits usage flags req pref ctb pool in
+  match r with
+  | OK _ => VamInvU c v' [] X /\ tab_frame v v' [slot] /\ lists_frame' v v' /\ exists a, slot_is v' slot a
+  | ER _ => VamInvU c v' [] X /\ tab_frame v v' [slot] /\ lists_frame' v v' /\
+            a_allocated (get_alloc v' slot) = a_allocated (get_alloc v slot)
+  | _ => True
+  end.
+Proof.
+  intros HI Hr. unfold allocate_memory. destruct (a_allocated (get_alloc v slot)) eqn:Ea.
+  - split; [auto|]. split; [apply tab_frame_refl|]. split; [apply lists_frame'_refl|auto].
+  - assert (Hnd : NoDup [slot]) by (constructor; [intros []|constructor]).
+    assert (Hdead : dead_slots v [slot]) by (intros s [<-|[]]; auto).
+    pose proof (multi_allocate_inv v X size align typeBits false false 0 None usage flags req pref ctb pool 1 [slot] HI Hnd Hdead) as P.
+    destruct (multi_allocate c v size align typeBits false false 0 None usage flags req pref ctb pool 1 [slot]) as (v' & r).
+    destruct r as [[]|code| |]; auto; destruct P as (A & B & C & D); (split; [auto|]; split; [auto|]; split; [auto|]).
+    + apply D. left. reflexivity.
+    + apply D. left. reflexivity.
+Qed.
+
+Lemma allocate_memory_slice_inv v X slot n size align typeBits usage flags req pref ctb pool :
+  VamInvU c v [] X -> 0 <= slot -> slot + n <= zlen (v_tab v) ->
+  let '(v', r) := allocate_memory_slice c v slot n size align typeBits usage flags req pref ctb pool in
+  let slots := slot_range slot (Z.to_nat n) in
+  match r with
+  | OK _ => VamInvU c v' [] X /\ tab_frame v v' slots /\ lists_frame' v v' /\ forall s, In s slots -> exists a, slot_is v' s a
+  | ER _ => VamInvU c v' [] X /\ tab_frame v v' slots /\ lists_frame' v v' /\
+            forall s, In s slots -> a_allocated (get_alloc v' s) = a_allocated (get_alloc v s)
+  | _ => True
+  end.
+Proof.
+  intros HI H0 Hn. unfold allocate_memory_slice. cbn zeta.
+  destruct (slot_range_nodup (Z.to_nat n) slot) as (Hnd & Hrange).
+  set (slots := slot_range slot (Z.to_nat n)) in *.
+  assert (Hrefl : VamInvU c v [] X /\ tab_frame v v slots /\ lists_frame' v v) by (split; [auto|split; [apply tab_frame_refl|apply lists_frame'_refl]]).
+  destruct slots as [|s0 tl] eqn:Es.
+  - destruct Hrefl as (A & B & C). split; [auto|]. split; [auto|]. split; [auto|]. intros ? [].
+  - rewrite <- Es in *. destruct (existsb _ slots) eqn:Eex.
+    + destruct Hrefl as (A & B & C). split; [auto|]. split; [auto|]. split; auto.
+    + assert (Hdead : dead_slots v slots).
+      { intros s Hs. split.
+        - specialize (Hrange s Hs). destruct n as [|p|p]; [cbn in Hrange; lia|rewrite Z2Nat.id in Hrange by lia; lia|cbn in Hrange; lia].
+        - destruct (a_allocated (get_alloc v s)) eqn:E; [|reflexivity]. exfalso.
+          assert (existsb (fun s => a_allocated (get_alloc v s)) slots = true) by (apply existsb_exists; exists s; auto). congruence. }
+      pose proof (multi_allocate_inv v X size align typeBits false false 0 None usage flags req pref ctb pool 1 slots HI Hnd Hdead) as P.
+      destruct (multi_allocate c v size align typeBits false false 0 None usage flags req pref ctb pool 1 slots) as (v' & r).
+      destruct r as [[]|code| |]; auto. destruct P as (A & B & C & D). split; [auto|]. split; [auto|]. split; [auto|].
+      intros s Hs. destruct (D s Hs) as (_ & E). rewrite E. symmetry. apply Hdead. auto.
+Qed.
+
+(* ---------------------------------------------------------------- freeing *)
+
+Lemma remove_z_in x s l : In x (Util.remove_z s l) -> In x l.
+Proof.
+  induction l as [|y l IH]; cbn; [tauto|]. destruct (y =? s); [intros H; right; exact H|]. intros [->|H]; [left; reflexivity|right; auto].
+Qed.
+
+Lemma remove_z_spec s l : NoDup l -> NoDup (Util.remove_z s l) /\ forall x, In x (Util.remove_z s l) <-> In x l /\ x <> s.
+Proof.
+  induction l as [|y l IH]; cbn; intros Hnd; [split; [constructor|tauto]|].
+  inversion Hnd as [|? ? Hy Hl]; subst. destruct (IH Hl) as (N & S). destruct (y =? s) eqn:E.
+  - apply Z.eqb_eq in E. subst y. split; [auto|]. intros x. split.
+    + intros H. split; [right; auto|]. intros ->. contradiction.
+    + intros ([->|H] & Hne); [contradiction|auto].
+  - apply Z.eqb_neq in E. split.
+    + constructor; [|auto]. intros H. apply S in H. tauto.
+    + intros x. cbn. rewrite S. split; [intros [->|(H & Hne)]; [split; auto|split; auto]|intros ([->|H] & Hne); auto].
+Qed.
+
+(* a registered dedicated allocation is freed and the object marked unallocated *)
+Lemma free_ded_slot_inv v X s a :
+  VamInvU c v [] X -> slot_is v s a -> a_kind a = 2 ->
+  let '(v', r) := free_dedicated c v s in
+  match r with
+  | OK _ => let v2 := set_alloc v' s (set_allocated (get_alloc v' s) false) in
+            VamInvU c v2 [] X /\ tab_frame v v2 [s] /\ lists_frame' v v2 /\ a_allocated (get_alloc v2 s) = false
+  | ER _ => False
+  | _ => True
+  end.
+Proof.
+  intros HI Sa Ka. unfold free_dedicated. rewrite (get_alloc_slot _ _ _ Sa). rewrite Ka. cbn [Z.eqb negb Pos.eqb].
+  assert (HnX : ~ In s X).
+  { intros Hi. destruct (vi_dang _ _ _ _ HI _ Hi) as (a2 & S2 & K2). assert (a2 = a) by (destruct S2, Sa; congruence). subst. congruence. }
+  destruct (vi_slots _ _ _ _ HI s a Sa HnX) as [(K & _)|(_ & Hin & (l & Hg & Ht) & Hdev)]; [congruence|].
+  destruct Hin as [Hin|[]].
+  set (v1 := set_dedlist v (a_lref a) (Util.remove_z s (get_dedlist v (a_lref a)))).
+  pose proof (free_vk_spec c (v_m v1) (a_type a) (a_size a) (a_mem a)) as (F1 & F2).
+  pose proof (free_vk_no_error c (v_m v1) (a_type a) (a_size a) (a_mem a)) as NE.
+  destruct (free_vk c (v_m v1) (a_type a) (a_size a) (a_mem a)) as (m1 & fr). cbn [fst snd] in *.
+  destruct fr as [[]|code| |]; auto.
+  pose proof (remove_allocation_no_error c m1 (type_heap c (a_type a)) (a_size a)) as NE2.
+  unfold remove_allocation in *. destruct (Budget.remove_alloc _ _ _ _) as ((b2 & r2) & cs2). cbn [snd] in NE2.
+  set (m2 := set_bud m1 b2) in *.
+  destruct r2; try exact I; try contradiction. cbn zeta.
+  assert (E : get_alloc (set_m v1 m2) s = a).
+  { unfold get_alloc. cbn. unfold v1. rewrite set_dedlist_tab. destruct Sa as (Sa & _). rewrite Sa. reflexivity. }
+  rewrite E. set (v2 := set_alloc (set_m v1 m2) s (set_allocated a false)).
+  destruct (remove_z_spec s (get_dedlist v (a_lref a)) (vi_dedlists_nodup _ _ _ _ HI _)) as (RN & RS).
+  assert (Hlen : length (v_ded v) = length (v_lists v)) by (rewrite (vi_ded_len _ _ _ _ HI), (vi_lists_len _ _ _ _ HI); reflexivity).
+  assert (Hdl : forall lr1, get_dedlist v2 lr1 = if lref_eq_dec lr1 (a_lref a) then Util.remove_z s (get_dedlist v (a_lref a)) else get_dedlist v lr1).
+  { intros lr1. unfold v2. rewrite get_dedlist_set_alloc, get_dedlist_set_m. unfold v1. destruct (lref_eq_dec lr1 (a_lref a)) as [->|Hne].
+    - eapply get_dedlist_set_dedlist_same; eauto.
+    - apply get_dedlist_set_dedlist_other. auto. }
+  assert (I2 : VamInvU c v2 [] X).
+  { apply (VamInvU_remove_ded c v v2 [] [] X s a HI Sa Ka); unfold v2.
+    - intros lr1. rewrite get_blist_set_alloc, get_blist_set_m. apply get_blist_set_dedlist.
+    - cbn. unfold v1. rewrite set_dedlist_tab. reflexivity.
+    - cbn. rewrite F1. unfold v1. rewrite set_dedlist_m. reflexivity.
+    - cbn. rewrite F2. unfold v1. rewrite set_dedlist_m. reflexivity.
+    - cbn. unfold v1. rewrite set_dedlist_lists. reflexivity.
+    - cbn. apply set_dedlist_ded_len.
+    - cbn. apply set_dedlist_uids.
+    - cbn. apply set_dedlist_pids.
+    - cbn. apply set_dedlist_next_uid.
+    - cbn. apply set_dedlist_next_pid.
+    - intros lr1 x. fold v2. rewrite Hdl. destruct (lref_eq_dec lr1 (a_lref a)) as [->|Hne]; [apply RS|].
+      split; [|tauto]. intros Hx. split; [auto|]. intros ->.
+      destruct (vi_dedlists _ _ _ _ HI _ _ Hx) as (a2 & S2 & K2 & L2). assert (a2 = a) by (destruct S2, Sa; congruence). subst a2. congruence.
+    - intros lr1. fold v2. rewrite Hdl. destruct (lref_eq_dec lr1 (a_lref a)); [auto|eapply vi_dedlists_nodup; eauto].
+    - intros x. cbn. tauto. }
+  split; [auto|]. split; [|split].
+  - unfold v2. eapply tab_frame_trans_same; [eapply tab_frame_trans_same; [apply tab_frame_set_dedlist|apply tab_frame_set_m]|apply tab_frame_set_alloc].
+  - unfold v2. eapply lists_frame'_trans; [apply lists_frame'_set_dedlist|]. apply lists_frame_weak.
+    eapply lists_frame_trans; [apply lists_frame_set_m|apply lists_frame_set_alloc].
+  - unfold v2, get_alloc. cbn. rewrite nth_z_set_same; [reflexivity|]. unfold v1. rewrite set_dedlist_tab. eapply slot_is_range; eauto.
+Qed.
+
+Definition live_slots (v : vam) (X slots : list Z) : Prop :=
+  forall s, In s slots -> ~ In s X /\ exists a, slot_is v s a.
+
+Lemma multi_free_inv slots : forall v X,
+  VamInvU c v [] X -> NoDup slots -> live_slots v X slots ->
+  let '(v', r) := multi_free c v slots in
+  match r with
+  | OK _ => VamInvU c v' [] X /\ tab_frame v v' slots /\ lists_frame' v v' /\ dead_slots v' slots
+  | ER _ => VamInvU c v' [] X /\ tab_frame v v' slots /\ lists_frame' v v'
+  | _ => True
+  end.
+Proof.
+  induction slots as [|s tl IH]; intros v X HI Hnd Hlive; cbn [multi_free].
+  - split; [auto|]. split; [apply tab_frame_refl|]. split; [apply lists_frame'_refl|intros ? []].
+  - inversion Hnd as [|? ? Hns Hnd']; subst.
+    destruct (Hlive s (or_introl eq_refl)) as (HnX & a & Sa).
+    assert (Hstep : let '(v1, r) := free_single c v s in
+              match r with
+              | OK _ => let v2 := set_alloc v1 s (set_allocated (get_alloc v1 s) false) in
+                        VamInvU c v2 [] X /\ tab_frame v v2 [s] /\ lists_frame' v v2 /\ a_allocated (get_alloc v2 s) = false
+              | ER _ => VamInvU c v1 [] X /\ tab_frame v v1 [s] /\ lists_frame' v v1
+              | _ => True end).
+    { unfold free_single. rewrite (get_alloc_slot _ _ _ Sa).
+      destruct (vi_slots _ _ _ _ HI s a Sa HnX) as [(K & _)|(K & _)]; rewrite K; cbn [Z.eqb Pos.eqb].
+      - pose proof (free_block_slot_inv c v [] X s a false HI Sa HnX K) as F.
+        destruct (bl_free c v (a_lref a) s false) as (v1 & r). destruct r as [[]|code| |]; auto.
+        + destruct F as ((A & B & C) & D). cbn zeta. split; [auto|]. split; [auto|]. split; [apply lists_frame_weak; auto|auto].
+        + destruct F as (A & B & C). split; [auto|]. split; [eapply tab_frame_weaken; [exact B|intros ? []]|apply lists_frame_weak; auto].
+      - pose proof (free_ded_slot_inv v X s a HI Sa K) as F.
+        destruct (free_dedicated c v s) as (v1 & r). destruct r as [[]|code| |]; auto. contradiction. }
+    destruct (free_single c v s) as (v1 & r). destruct r as [[]|code| |]; auto.
+    + cbn zeta in Hstep. set (v2 := set_alloc v1 s (set_allocated (get_alloc v1 s) false)) in *.
+      destruct Hstep as (I2 & T2 & L2 & D2).
+      assert (Hlive2 : live_slots v2 X tl).
+      { intros x Hx. destruct (Hlive x (or_intror Hx)) as (HX & b & Sb). split; [auto|]. exists b.
+        apply (slot_is_frame _ _ _ _ _ T2); auto. intros [<-|[]]. contradiction. }
+      specialize (IH v2 X I2 Hnd' Hlive2). destruct (multi_free c v2 tl) as (v3 & r3).
+      destruct r3 as [[]|code| |]; auto.
+      * destruct IH as (I3 & T3 & L3 & D3). split; [auto|].
+        split; [eapply tab_frame_trans; [exact T2|exact T3|intros ? [<-|[]]; left; reflexivity|intros; right; auto]|].
+        split; [eapply lists_frame'_trans; eauto|].
+        intros x [<-|Hx]; [|apply D3; auto].
+        split; [destruct T3 as (E & _); destruct T2 as (E2 & _); rewrite E, E2; eapply slot_is_range; eauto|].
+        rewrite (get_alloc_frame _ _ _ _ T3); auto.
+      * destruct IH as (I3 & T3 & L3). split; [auto|].
+        split; [eapply tab_frame_trans; [exact T2|exact T3|intros ? [<-|[]]; left; reflexivity|intros; right; auto]|eapply lists_frame'_trans; eauto].
+    + destruct Hstep as (A & B & C). split; [auto|]. split; [eapply tab_frame_weaken; [exact B|intros ? [<-|[]]; left; reflexivity]|auto].
+Qed.
+
+(* ---------------------------------------------------------------- Map / Unmap / Flush *)
+
+Definition same_post (v v' : vam) (X : list Z) (r : out unit) : Prop :=
+  match r with PANIC | STUCK => True | _ => VamInvU c v' [] X /\ tab_frame v v' [] /\ lists_frame v v' end.
+
+Lemma same_post_refl v X r : VamInvU c v [] X -> same_post v v X r.
+Proof. intros H. destruct r; cbn; auto; (split; [auto|split; [apply tab_frame_refl|apply lists_frame_refl]]). Qed.
+
+(* the mapping state of the block or dedicated allocation behind slot s changes, with a machine that kept its objects *)
+Lemma sm_update_inv v X s a m' sm' :
+  VamInvU c v [] X -> slot_is v s a -> ~ In s X -> mach_same (v_m v) m' ->
+  (a_kind a = 1 -> forall b, get_block v (a_lref a) (a_blk a) = Some b ->
+     let v' := put_block (set_m v m') (a_lref a) (mkBlock (bk_id b) (bk_mem b) sm' (bk_meta b)) in
+     VamInvU c v' [] X /\ tab_frame v v' [] /\ lists_frame v v') /\
+  (a_kind a = 2 ->
+     let v' := set_alloc (set_m v m') s (set_a_sm a sm') in
+     VamInvU c v' [] X /\ tab_frame v v' [s] /\ lists_frame v v').
+Proof.
+  intros HI Sa HnX Hm. pose proof (VamInvU_mach_same _ _ _ _ _ HI Hm) as I1. split.
+  - intros K b Hgb. destruct (get_block_in _ _ _ _ Hgb) as (l & Hg & Hb & Hid).
+    assert (Hg1 : get_blist (set_m v m') (a_lref a) = Some l) by (rewrite get_blist_set_m; auto).
+    pose proof (vi_lists _ _ _ _ HI _ _ Hg) as Hwf. pose proof (bw_meta _ _ Hwf) as Hmeta. rewrite Forall_forall in Hmeta.
+    destruct (put_block_same_inv c (set_m v m') [] X (a_lref a) l b (mkBlock (bk_id b) (bk_mem b) sm' (bk_meta b)) I1 Hg1 Hb) as (A & B & C).
+    + unfold block_same. cbn. auto.
+    + cbn. auto.
+    + cbn zeta. split; [auto|]. split; [eapply tab_frame_trans_same; [apply tab_frame_set_m|exact B]|eapply lists_frame_trans; [apply lists_frame_set_m|exact C]].
+  - intros K. cbn zeta. split; [apply VamInvU_set_alloc_sm; [auto|apply slot_is_set_m; auto]|].
+    split; [eapply tab_frame_trans_same; [apply tab_frame_set_m|apply tab_frame_set_alloc]|eapply lists_frame_trans; [apply lists_frame_set_m|apply lists_frame_set_alloc]].
+Qed.
+
+Lemma get_alloc_allocated v s : a_allocated (get_alloc v s) = true -> slot_is v s (get_alloc v s).
+Proof.
+  unfold get_alloc, slot_is. destruct (nth_z (v_tab v) s) as [a|]; [auto|]. cbn. discriminate.
+Qed.
+
+Definition slot_post (v v' : vam) (s : Z) (r : out unit) : Prop :=
+  match r with PANIC | STUCK => True | _ => VamInvU c v' [] [] /\ tab_frame v v' [s] /\ lists_frame v v' end.
+
+Lemma slot_post_refl v s r : VamInvU c v [] [] -> slot_post v v s r.
+Proof. intros H. destruct r; cbn; auto; (split; [auto|split; [apply tab_frame_refl|apply lists_frame_refl]]). Qed.
+
+Lemma slot_post_of v v' s r : VamInvU c v' [] [] /\ tab_frame v v' [s] /\ lists_frame v v' -> slot_post v v' s r.
+Proof. intros H. destruct r; cbn; auto. Qed.
+
+Lemma weaken_nil v v' s : tab_frame v v' [] -> tab_frame v v' [s].
+Proof. intros H. eapply tab_frame_weaken; [exact H|intros ? []]. Qed.
+
+Lemma allocation_map_inv v s :
+  VamInvU c v [] [] -> let '(v', r) := allocation_map c v s in slot_post v v' s r.
+Proof.
+  intros HI. unfold allocation_map. set (a := get_alloc v s).
+  destruct (negb (a_mapallowed a)); [apply slot_post_refl; auto|].
+  destruct (a_allocated a) eqn:Ea; cbn [negb]; [|apply slot_post_refl; auto].
+  pose proof (get_alloc_allocated v s Ea) as Sa. fold a in Sa.
+  destruct (a_kind a =? 1) eqn:K1.
+  - apply Z.eqb_eq in K1. destruct (get_block v (a_lref a) (a_blk a)) as [b|] eqn:Hgb; [|exact I].
+    pose proof (sm_map_same c (v_m v) (bk_mem b) (bk_sm b)) as Hm.
+    destruct (sm_map c (v_m v) (bk_mem b) (bk_sm b)) as ((m1 & s1) & r). cbn [fst] in Hm.
+    destruct (sm_update_inv v [] s a m1 s1 HI Sa (fun H => H) Hm) as (P1 & _). specialize (P1 K1 b Hgb). cbn zeta in P1.
+    destruct P1 as (A & B & C).
+    destruct r as [[]|code| |]; try exact I.
+    + destruct (find_offset _ a); [|exact I]. cbn. split; [auto|]. split; [apply weaken_nil; auto|auto].
+    + cbn. split; [auto|]. split; [apply weaken_nil; auto|auto].
+  - destruct (a_kind a =? 2) eqn:K2; [|exact I]. apply Z.eqb_eq in K2.
+    pose proof (sm_map_same c (v_m v) (a_mem a) (a_sm a)) as Hm.
+    destruct (sm_map c (v_m v) (a_mem a) (a_sm a)) as ((m1 & s1) & r). cbn [fst] in Hm.
+    destruct (sm_update_inv v [] s a m1 s1 HI Sa (fun H => H) Hm) as (_ & P2). specialize (P2 K2). cbn zeta in P2.
+    apply slot_post_of. exact P2.
+Qed.
+
+Lemma allocation_unmap_inv v s :
+  VamInvU c v [] [] -> let '(v', r) := allocation_unmap v s in slot_post v v' s r.
+Proof.
+  intros HI. unfold allocation_unmap. set (a := get_alloc v s).
+  destruct (a_allocated a) eqn:Ea; cbn [negb]; [|exact I].
+  pose proof (get_alloc_allocated v s Ea) as Sa. fold a in Sa.
+  destruct (a_kind a =? 1) eqn:K1.
+  - apply Z.eqb_eq in K1. destruct (get_block v (a_lref a) (a_blk a)) as [b|] eqn:Hgb; [|exact I].
+    pose proof (sm_unmap_same (v_m v) (bk_mem b) (bk_sm b)) as Hm.
+    destruct (sm_unmap (v_m v) (bk_mem b) (bk_sm b)) as ((m1 & s1) & r). cbn [fst] in Hm.
+    destruct (sm_update_inv v [] s a m1 s1 HI Sa (fun H => H) Hm) as (P1 & _). specialize (P1 K1 b Hgb). cbn zeta in P1.
+    destruct P1 as (A & B & C). apply slot_post_of. split; [auto|]. split; [apply weaken_nil; auto|auto].
+  - destruct (a_kind a =? 2) eqn:K2; [|exact I]. apply Z.eqb_eq in K2.
+    pose proof (sm_unmap_same (v_m v) (a_mem a) (a_sm a)) as Hm.
+    destruct (sm_unmap (v_m v) (a_mem a) (a_sm a)) as ((m1 & s1) & r). cbn [fst] in Hm.
+    destruct (sm_update_inv v [] s a m1 s1 HI Sa (fun H => H) Hm) as (_ & P2). specialize (P2 K2). cbn zeta in P2.
+    apply slot_post_of. exact P2.
+Qed.
+
+Lemma slot_post_trans v0 v1 v2 s r : VamInvU c v1 [] [] -> tab_frame v0 v1 [s] -> lists_frame v0 v1 -> slot_post v1 v2 s r -> slot_post v0 v2 s r.
+Proof.
+  intros I T L P. destruct r as [[]|code| |]; cbn in *; auto; destruct P as (A & B & C);
+    (split; [auto|]; split; [eapply tab_frame_trans_same; eauto|eapply lists_frame_trans; eauto]).
+Qed.
+
+Lemma harness_rw_inv v s : VamInvU c v [] [] -> let '(v', r) := harness_rw c v s in slot_post v v' s r.
+Proof.
+  intros HI. unfold harness_rw. pose proof (allocation_map_inv v s HI) as M.
+  destruct (allocation_map c v s) as (v1 & r). destruct r as [[]|code| |]; auto.
+  destruct M as (A & B & C). pose proof (allocation_unmap_inv v1 s A) as U.
+  destruct (allocation_unmap v1 s) as (v2 & ur).
+  assert (P : slot_post v v2 s ur) by (eapply slot_post_trans; eauto).
+  destruct ur as [[]|ucode| |]; auto.
+Qed.
+
+Lemma allocation_flush_inv v inval s off size :
+  VamInvU c v [] [] -> let '(v', r) := allocation_flush c v inval s off size in slot_post v v' s r.
+Proof.
+  intros HI. unfold allocation_flush. destruct (negb _); [apply slot_post_refl; auto|].
+  destruct (flush_range c v (get_alloc v s) off size) as [[(roff & rsize)|]|code| |]; try (apply slot_post_refl; auto); try exact I.
+  pose proof (dev_flush_same (v_m v) inval (a_mem (get_alloc v s)) roff rsize) as Hm.
+  destruct (dev_flush (v_m v) inval (a_mem (get_alloc v s)) roff rsize) as (m1 & code). cbn [fst] in Hm.
+  apply slot_post_of. split; [apply VamInvU_mach_same; auto|]. split; [apply tab_frame_set_m|apply lists_frame_set_m].
+Qed.
+
+(* ---------------------------------------------------------------- pools *)
+
+Lemma get_blist_pool v uid l : get_blist v (LPool uid) = Some l -> exists p, find_pool (v_pools v) uid = Some p /\ p_list p = l.
+Proof. cbn. destruct (find_pool (v_pools v) uid) as [p|]; [|discriminate]. intros H; injection H as <-. eauto. Qed.
+
+Lemma pool_destroy_inv v uid nextId :
+  VamInvU c v [] [] ->
+  Forall (fun q => p_id q < nextId) (remove_pool (v_pools v) uid) ->
+  let '(v', r) := pool_destroy c v uid in
+  match r with
+  | OK _ => VamInvU c (mkVam (v_m v') (v_global v') (v_lists v') (v_ded v') (v_pools v') nextId (v_next_uid v') (v_tab v')) [] [] /\
+            tab_frame v v' [] /\ find_pool (v_pools v') uid = None /\
+            map p_id (v_pools v') = map p_id (remove_pool (v_pools v) uid)
+  | ER _ => v' = v
+  | _ => True
+  end.
+Proof.
+  intros HI Hids. unfold pool_destroy. destruct (find_pool (v_pools v) uid) as [p|] eqn:Hf; [|exact I].
+  destruct (p_ded p) as [|x tl] eqn:Hded; [|reflexivity].
+  pose proof (bl_destroy_inv c v [] [] (LPool uid) HI) as BD.
+  destruct (bl_destroy c v (LPool uid)) as (v1 & r). destruct r as [[]|code| |]; auto.
+  destruct BD as ((I1 & T1 & L1) & (l' & G1 & E1)).
+  destruct (get_blist_pool _ _ _ G1) as (p1 & Hf1 & Hl1).
+  assert (Hd1 : p_ded p1 = []).
+  { pose proof (lf_ded _ _ L1 (LPool uid)) as D. cbn in D. rewrite Hf, Hf1 in D. congruence. }
+  assert (Hpid : map p_id (remove_pool (v_pools v1) uid) = map p_id (remove_pool (v_pools v) uid)).
+  { pose proof (lf_uids _ _ L1) as Hu. pose proof (lf_pids _ _ L1) as Hp. revert Hu Hp. generalize (v_pools v) as ps. generalize (v_pools v1) as qs.
+    induction qs as [|q qs IH]; intros [|p0 ps] Hu Hp; cbn in *; try discriminate; [reflexivity|].
+    injection Hu as Hu0 Hu. injection Hp as Hp0 Hp. rewrite Hu0. destruct (p_uid p0 =? uid); [congruence|]. cbn. rewrite Hp0. f_equal. auto. }
+  assert (Hids1 : Forall (fun q => p_id q < nextId) (remove_pool (v_pools v1) uid)).
+  { apply Forall_forall. intros q Hq. assert (In (p_id q) (map p_id (remove_pool (v_pools v) uid))) by (rewrite <- Hpid; apply in_map; auto).
+    apply in_map_iff in H. destruct H as (q0 & E0 & H0). rewrite Forall_forall in Hids. rewrite <- E0. auto. }
+  pose proof (VamInvU_remove_pool c v1 [] uid p1 nextId I1 Hf1 ltac:(rewrite Hl1; auto) Hd1 Hids1) as IR.
+  split; [exact IR|]. split; [exact T1|]. split; [|exact Hpid].
+  cbn. apply find_remove_pool_same. eapply vi_pools_nodup; eauto.
+Qed.
+
+Lemma remove_pool_absent ps uid : find_pool ps uid = None -> remove_pool ps uid = ps.
+Proof.
+  induction ps as [|x ps IH]; cbn; [reflexivity|]. destruct (p_uid x =? uid); [discriminate|]. intros H. rewrite IH; auto.
+Qed.
+
+Lemma type_min_alignment_pow2 t : Bits.pow2 (type_min_alignment c t).
+Proof.
+  unfold type_min_alignment. destruct (non_coherent c t); [|apply Bits.pow2_1]. destruct (c_atom c <? 1) eqn:E; [apply Bits.pow2_1|].
+  destruct (co_atom _ Hc) as [H|H]; [apply Z.ltb_ge in E; lia|auto].
+Qed.
+
+Lemma eff_granularity_pow2 : Bits.pow2 (eff_granularity c).
+Proof.
+  unfold eff_granularity. destruct (c_gran c <? 1) eqn:E; [apply Bits.pow2_1|].
+  destruct (co_gran _ Hc) as [H|H]; [apply Z.ltb_ge in E; lia|auto].
+Qed.
+
+(* no Allocation object refers to list lr: all its blocks are empty *)
+Lemma unreferenced_blocks_empty v lr l :
+  VamInvU c v [] [] -> get_blist v lr = Some l -> (forall s a, slot_is v s a -> a_lref a <> lr) ->
+  forall b, In b (bl_blocks l) -> meta_is_empty (bk_meta b) = true.
+Proof.
+  intros HI Hg Hno b Hb. pose proof (vi_lists _ _ _ _ HI _ _ Hg) as Hwf. pose proof (bw_meta _ _ Hwf) as Hm. rewrite Forall_forall in Hm.
+  destruct (meta_bookkeeping _ (Hm _ Hb)) as (_ & _ & He). apply He.
+  destruct (meta_live (bk_meta b)) as [|rg tl] eqn:El; [reflexivity|]. exfalso.
+  destruct (vi_tags _ _ _ _ HI _ _ _ rg Hg Hb ltac:(rewrite El; left; reflexivity)) as (s & a & _ & S & _ & L & _).
+  eapply Hno; eauto.
 Qed.
 End WithCfg.
